@@ -215,8 +215,26 @@ def fam_chars(ch):
     return k2, text
 
 
+def fam_double_fault(ch):
+    """A text with two faults of different kinds: a type or sanity error in an early part and a syntax error behind it.
+    Which error surfaces depends on how far the parser gets - it must not depend on what the process did before."""
+    first = ch.pick([
+        'globally: no a {x + "s" > 1}', 'globally: no a {not 42}', 'globally: a as X causes b as X', 'globally: no (a or a)',
+        'globally: no a {x > @Zq.x}', 'after p: no a {forall i in xs: x > 0}', 'globally: some a {len(1) > 0}',
+    ])  # fmt: skip
+    tail = ch.pick([' }', ' globally: no c', ' within', ' {', ' ;', ' within 1', ' or', ' # id: x'])
+    k = ch.pick(['property', 'property', 'specification'])
+    if ch.int(0, 3) == 0:
+        pred = ch.pick(['not 42 }', 'x + "s" > 1 }}', '{x = "a" and x > 1} }', 'x > 1 and (y or 3))'])
+        return ch.pick(['expression', 'condition', 'predicate']), pred
+    return k, first + tail
+
+
 def gen_case(ch):
-    fam = ch.pick(['tokens', 'tokens', 'mutation', 'mutation', 'chaos', 'chaos', 'annotations', 'nesting', 'cross', 'chars', 'chars'])
+    fam = ch.pick(['tokens', 'tokens', 'mutation', 'mutation', 'chaos', 'chaos', 'annotations', 'nesting', 'cross', 'chars', 'chars', 'double-fault'])
+    if fam == 'double-fault':
+        k2, text = fam_double_fault(ch)
+        return {'kind': k2, 'text': text, 'family': fam}
     if fam == 'chars':
         k2, text = fam_chars(ch)
         return {'kind': k2 if ch.int(0, 5) else ch.pick(lib.ENTRY_POINTS), 'text': text, 'family': fam}
@@ -281,6 +299,20 @@ def shard(ctx, shard_no, nshards, n, n_text, n_seq):
         run_machine(ctx, shard_no, n_seq)
     with ctx.timed('order-differential'):
         run_order_differential(ctx, shard_no, n_seq + n_seq // 2)
+    if shard_no == 0:
+        with ctx.timed('fresh-process'):
+            def body_fp(inp):
+                r = sub_fresh_process(inp)
+                ctx.case(('fresh', inp['kind'], inp['text']), True, 'fresh-process:' + r)
+
+            def gen_fp(ch):
+                if ch.int(0, 2) > 0:
+                    k2, text = fam_double_fault(ch)
+                    return {'kind': k2, 'text': text}
+                c = gen_case(ch)
+                return {'kind': c['kind'], 'text': c['text'].replace('\x00', ' ')}
+
+            core.run_hypothesis(ctx, 'fresh', from_tape(gen_fp, 1024), body_fp, 24 if ctx.tier == 'quick' else 120, max_rounds=2)
 
 
 NUM = re.compile(r'(?<![\w.@])(\d+)(\.\d*)?(?![\w.])')
@@ -483,6 +515,53 @@ def sub_order(inp):
 
 
 SUBS['order'] = sub_order
+
+_FRESH = r"""
+import sys, json
+sys.path.insert(0, sys.argv[1])
+from hpl import parser as hp
+from hpl.errors import HplSanityError, HplSyntaxError
+kind, text = sys.argv[2], sys.stdin.read()
+mk = {'specification': hp.specification_parser, 'property': hp.property_parser, 'predicate': hp.predicate_parser,
+      'condition': hp.condition_parser, 'expression': hp.expression_parser}[kind]
+try:
+    r = mk().parse(text)
+    out = ('ast', str(r))
+except HplSyntaxError as e:
+    out = ('syntax', '')
+except HplSanityError as e:
+    out = ('sanity', '')
+except TypeError as e:
+    out = ('type', '')
+except ValueError as e:
+    out = ('value', '')
+except Exception as e:
+    out = ('other', type(e).__name__)
+print(json.dumps(out))
+"""
+
+
+def sub_fresh_process(inp):
+    """inp: {'kind', 'text'}: the outcome in this long-lived process (every entry point in use, thousands of texts parsed)
+    against the outcome in a brand-new interpreter that creates one parser and parses only this text."""
+    import json
+    import os
+    import subprocess
+
+    kind, text = inp['kind'], inp['text']
+    k, r = guarded_outcome(kind, text, p=lib.fresh_parser(kind))
+    here = (k if k in ('ast', 'syntax', 'sanity', 'type', 'value') else 'other', str(r) if k == 'ast' else '')
+    env = dict(os.environ, PYTHONHASHSEED='0')
+    p = subprocess.run([sys.executable, '-c', _FRESH, os.path.join(core.REPO_DIR, 'src'), kind], input=text.encode('utf-8', 'surrogatepass'), capture_output=True, env=env, timeout=120)
+    if p.returncode != 0:
+        raise core.HarnessError(f'fresh interpreter failed: {p.stderr.decode(errors="replace")[-300:]}')
+    there = tuple(json.loads(p.stdout.decode()))
+    if here[0] != there[0] or (here[0] == 'ast' and here[1] != there[1]):
+        raise Violation('fresh_process', f'process-history:{kind}:{here[0]}/{there[0]}', inp, f'the {kind} parser gives {here[0]} for {text[:200]!r} in this process (all entry points in use) and {there[0]} in a new interpreter that only parses this text')
+    return here[0]
+
+
+SUBS['fresh_process'] = sub_fresh_process
 
 
 def run_order_differential(ctx, shard_no, n_runs):
